@@ -46,6 +46,11 @@ type gS4 struct {
 	c int     // untagged, unexported: ignored
 }
 
+type gS5 struct {
+	Pair [2]int `cty:"pair"`
+	Name string `cty:"name"`
+}
+
 func ip(i int) *int          { return &i }
 func sp(s string) *string    { return &s }
 func ipp(i int) **int        { p := &i; return &p }
@@ -60,6 +65,8 @@ func goFamily() []goCase {
 	numT := cty.Number
 	listNum := cty.List(cty.Number)
 	listListStr := cty.List(cty.List(cty.String))
+	listStr := cty.List(cty.String)
+	objPair := cty.Object(map[string]cty.Type{"pair": cty.List(cty.Number), "name": cty.String})
 	return []goCase{
 		{"int", []interface{}{int(0), int(1), int(-1), int(math.MaxInt64), int(math.MinInt64)}, nil},
 		{"int8", []interface{}{int8(0), int8(127), int8(-128)}, nil},
@@ -98,9 +105,16 @@ func goFamily() []goCase {
 		{"cty.Value", []interface{}{cty.StringVal("x"), cty.NumberIntVal(1), cty.ObjectVal(map[string]cty.Value{"a": cty.True}), cty.NullVal(cty.Number)}, nil},
 		{"[2]int", []interface{}{[2]int{1, 2}, [2]int{}}, &listNum},
 		{"[2][]string", []interface{}{[2][]string{{"a"}, {}}}, &listListStr},
-		{"*big.Int", []interface{}{big.NewInt(0), big.NewInt(-5), new(big.Int).Lsh(big.NewInt(1), 100)}, &numT},
-		{"*big.Float", []interface{}{big.NewFloat(0.5), new(big.Float).SetPrec(512).SetInt(new(big.Int).Lsh(big.NewInt(1), 200)), big.NewFloat(math.Inf(1))}, &numT},
-		{"big.Int", []interface{}{*big.NewInt(7)}, &numT},
+		{"*big.Int", []interface{}{big.NewInt(0), big.NewInt(-5), new(big.Int).Lsh(big.NewInt(1), 100),
+			// more significant bits than the 512-bit mantissa the number parser uses, and many more
+			new(big.Int).Add(new(big.Int).Lsh(big.NewInt(1), 512), big.NewInt(1)), new(big.Int).Neg(new(big.Int).Add(new(big.Int).Lsh(big.NewInt(1), 600), big.NewInt(1))),
+			new(big.Int).Sub(new(big.Int).Lsh(big.NewInt(1), 2000), big.NewInt(1)), new(big.Int).Lsh(big.NewInt(1), 600)}, &numT},
+		{"*big.Float", []interface{}{big.NewFloat(0.5), new(big.Float).SetPrec(512).SetInt(new(big.Int).Lsh(big.NewInt(1), 200)), big.NewFloat(math.Inf(1)),
+			new(big.Float).SetPrec(1024).SetInt(new(big.Int).Add(new(big.Int).Lsh(big.NewInt(1), 800), big.NewInt(1))), new(big.Float).SetMantExp(big.NewFloat(1.5), -1100), big.NewFloat(math.Inf(-1))}, &numT},
+		{"big.Int", []interface{}{*big.NewInt(7), *new(big.Int).Add(new(big.Int).Lsh(big.NewInt(1), 513), big.NewInt(3))}, &numT},
+		{"[3]string", []interface{}{[3]string{"a", "", "c"}}, &listStr},
+		{"*[2]int", []interface{}{&[2]int{4, 5}}, &listNum},
+		{"struct{[2]int}", []interface{}{gS5{Pair: [2]int{7, 8}, Name: "p"}}, &objPair},
 	}
 }
 
@@ -431,7 +445,8 @@ func c18NumberDecode(u *U, n cty.Value, t numTarget) {
 
 // accepts is the reference for "shape matches": can a known non-null value
 // of type vt be decoded into Go type gt at all (ignoring number ranges)?
-func c18ShapeOK(vt cty.Type, gt reflect.Type) (ok bool, decided bool) {
+func c18ShapeOK(v cty.Value, gt reflect.Type) (ok bool, decided bool) {
+	vt := v.Type()
 	if gt == reflect.TypeOf(cty.Value{}) {
 		return true, true
 	}
@@ -456,7 +471,14 @@ func c18ShapeOK(vt cty.Type, gt reflect.Type) (ok bool, decided bool) {
 		}
 		return false, true
 	case vt.IsListType():
-		if gt.Kind() == reflect.Slice || gt.Kind() == reflect.Array {
+		if gt.Kind() == reflect.Array {
+			// a fixed-size array holds exactly its length: any other list length is a shape mismatch
+			if v.LengthInt() != gt.Len() {
+				return false, true
+			}
+			return true, false
+		}
+		if gt.Kind() == reflect.Slice {
 			return true, false
 		}
 		return false, true
@@ -521,6 +543,16 @@ func runC18(c *Ctx) {
 		cty.ListVal([]cty.Value{cty.NumberIntVal(1), cty.NullVal(cty.Number)}),
 		cty.ListVal([]cty.Value{cty.NumberIntVal(1), cty.NumberIntVal(2), cty.NumberIntVal(3)}),
 		cty.MapVal(map[string]cty.Value{"a": cty.NumberIntVal(1), "b": cty.NullVal(cty.Number)}),
+		// lists of every length 0..4 against the fixed-size array targets, also nested
+		cty.ListValEmpty(cty.Number), cty.ListVal([]cty.Value{cty.NumberIntVal(9)}), cty.ListVal([]cty.Value{cty.NumberIntVal(9), cty.NumberIntVal(8)}),
+		cty.ListVal([]cty.Value{cty.NumberIntVal(1), cty.NumberIntVal(2), cty.NumberIntVal(3), cty.NumberIntVal(4)}),
+		cty.ListValEmpty(cty.String), cty.ListVal([]cty.Value{cty.StringVal("x"), cty.StringVal("y")}), cty.ListVal([]cty.Value{cty.StringVal("x"), cty.StringVal("y"), cty.StringVal("z")}),
+		cty.ListVal([]cty.Value{cty.StringVal("x"), cty.StringVal("y"), cty.StringVal("z"), cty.StringVal("w")}),
+		cty.ListVal([]cty.Value{cty.ListVal([]cty.Value{cty.StringVal("x")})}), cty.ListVal([]cty.Value{cty.ListValEmpty(cty.String), cty.ListVal([]cty.Value{cty.StringVal("x")})}),
+		cty.ObjectVal(map[string]cty.Value{"pair": cty.ListVal([]cty.Value{cty.NumberIntVal(7)}), "name": cty.StringVal("n")}),
+		cty.ObjectVal(map[string]cty.Value{"pair": cty.ListVal([]cty.Value{cty.NumberIntVal(7), cty.NumberIntVal(8)}), "name": cty.StringVal("n")}),
+		cty.ObjectVal(map[string]cty.Value{"pair": cty.ListVal([]cty.Value{cty.NumberIntVal(7), cty.NumberIntVal(8), cty.NumberIntVal(9)}), "name": cty.StringVal("n")}),
+		cty.ObjectVal(map[string]cty.Value{"pair": cty.ListValEmpty(cty.Number), "name": cty.StringVal("n")}),
 	)
 	for lo := 0; lo < len(pool); lo += 10 {
 		hi := lo + 10
@@ -573,12 +605,15 @@ func runC18(c *Ctx) {
 							u.Violation("gocty.null-not-nil", shape, fmt.Sprintf("%s stored a non-nil %#v for a null value", desc, target.Elem().Interface()))
 						}
 					case v.IsKnown() && !v.IsNull():
-						if ok, decided := c18ShapeOK(v.Type(), gt); decided && !ok && err == nil {
+						if err == nil && arrayLenMismatch(v, gt) {
+							u.Violation("gocty.shape-mismatch-accepted", shape, fmt.Sprintf("%s succeeded although a list does not have the length of the array it is decoded into (stored %#v)", desc, target.Elem().Interface()))
+						} else if ok, decided := c18ShapeOK(v, gt); decided && !ok && err == nil {
 							u.Violation("gocty.shape-mismatch-accepted", shape, fmt.Sprintf("%s succeeded although the shapes do not match (stored %#v)", desc, target.Elem().Interface()))
 						}
 					}
 					if err == nil {
 						u.Class("decoded")
+						c18Mirror(u, v, target, gt, desc, shape)
 					} else {
 						u.Class("refused")
 					}
@@ -586,4 +621,100 @@ func runC18(c *Ctx) {
 			}
 		})
 	}
+}
+
+// c18Mirror: a decode that succeeded stored the value, all of it.  The stored Go data is
+// converted back with ToCtyValue against the value's own type and must equal the value.
+// Not judged: targets with float kinds (inexact numbers may round), cty.Value targets
+// (trivial), values that are not wholly known or contain nulls below two nilable levels.
+func c18Mirror(u *U, v cty.Value, target reflect.Value, gt reflect.Type, desc, shape string) {
+	if !v.IsWhollyKnown() || v.IsNull() || goTypeHas(gt, func(t reflect.Type) bool {
+		return t.Kind() == reflect.Float32 || t.Kind() == reflect.Float64 || t == reflect.TypeOf(cty.Value{}) || t == reflect.TypeOf(big.Float{})
+	}) {
+		return
+	}
+	if v.Type().IsObjectType() || v.Type().IsTupleType() || v.Type().IsSetType() || v.Type().HasDynamicTypes() {
+		// struct targets may legitimately ignore nothing but tags decide names; keep to collections and primitives
+		if !(v.Type().IsObjectType() && gt.Kind() == reflect.Struct) {
+			return
+		}
+	}
+	var back cty.Value
+	var err error
+	pan := func() (pan string) {
+		defer func() {
+			if r := recover(); r != nil {
+				pan = fmt.Sprint(r)
+			}
+		}()
+		back, err = gocty.ToCtyValue(target.Elem().Interface(), v.Type())
+		return ""
+	}()
+	if pan != "" || err != nil {
+		u.Class("mirror-not-convertible")
+		return
+	}
+	u.Class("mirror-compared")
+	if !rawEq(back, v) && !(back.Equals(v).IsKnown() && back.Equals(v).True()) {
+		u.Violation("gocty.decode-incomplete", shape, fmt.Sprintf("%s succeeded but stored %#v, which converts back to %s", desc, target.Elem().Interface(), goStr(back)))
+	}
+}
+
+// arrayLenMismatch reports whether v holds, at the top or nested where the Go type has an
+// array, a known non-null list whose length differs from the array's.
+func arrayLenMismatch(v cty.Value, gt reflect.Type) bool {
+	for gt.Kind() == reflect.Ptr {
+		gt = gt.Elem()
+	}
+	if !v.IsKnown() || v.IsNull() || gt == reflect.TypeOf(cty.Value{}) {
+		return false
+	}
+	vt := v.Type()
+	switch {
+	case vt.IsListType() && gt.Kind() == reflect.Array:
+		if v.LengthInt() != gt.Len() {
+			return true
+		}
+		fallthrough
+	case vt.IsListType() && gt.Kind() == reflect.Slice:
+		for _, e := range v.AsValueSlice() {
+			if arrayLenMismatch(e, gt.Elem()) {
+				return true
+			}
+		}
+	case vt.IsMapType() && gt.Kind() == reflect.Map:
+		for _, e := range v.AsValueMap() {
+			if arrayLenMismatch(e, gt.Elem()) {
+				return true
+			}
+		}
+	case vt.IsObjectType() && gt.Kind() == reflect.Struct:
+		for i := 0; i < gt.NumField(); i++ {
+			tag := gt.Field(i).Tag.Get("cty")
+			if tag != "" && vt.HasAttribute(tag) && arrayLenMismatch(v.GetAttr(tag), gt.Field(i).Type) {
+				return true
+			}
+		}
+	}
+	return false
+}
+
+func goTypeHas(t reflect.Type, pred func(reflect.Type) bool) bool {
+	if pred(t) {
+		return true
+	}
+	switch t.Kind() {
+	case reflect.Ptr, reflect.Slice, reflect.Array, reflect.Map:
+		return goTypeHas(t.Elem(), pred)
+	case reflect.Struct:
+		if t == reflect.TypeOf(big.Int{}) || t == reflect.TypeOf(big.Float{}) || t == reflect.TypeOf(cty.Value{}) {
+			return false
+		}
+		for i := 0; i < t.NumField(); i++ {
+			if goTypeHas(t.Field(i).Type, pred) {
+				return true
+			}
+		}
+	}
+	return false
 }
